@@ -4,7 +4,7 @@ From Coq.Strings Require Import Byte.
 Import ListNotations.
 From SV Require Import Text G_codes C05_Model Codes_Lemmas C17_Model G_gc_ids G_gc_prt G_gc_all C17_Lemmas.
 From SV Require Import C17_Gcode C17_GcodeLemmas.
-From SV Require Import C17_Convert C17_GenSpec C17_ConvSpec C17_ConvLemmas G_gc_prt_text G_gc_conv_all C17_ConvTables.
+From SV Require Import C17_Convert C17_GenSpec C17_ConvSpec C17_ConvLemmas G_gc_prt_text G_gc_conv_all C17_ConvTables C17_ConvPipeline.
 Open Scope N_scope.
 
 (* the set of shipped table ids is the set defined by NCBI's gc.prt *)
@@ -58,6 +58,15 @@ Theorem C17_convert_reproduces_json : forall n t aa sc,
     nth_error es n = Some en /\ e_id en = t_key t /\ generate_gc CODES en = inr g /\ gc_json_eqb g t aa sc = true.
 Proof. exact convert_tables. Qed.
 Print Assumptions C17_convert_reproduces_json.
+
+(* the script as a whole (parsing loop + 27 generate_gc calls + gcs[id_] = ...): run inside Coq on the text of gc.prt with
+   sugar.data.CODES it raises nothing and yields an object with the keys of gc.json in the order of gc.json, and under
+   every key the table of gc.json *)
+Theorem C17_convert_whole : exists gcs, convert CODES prt_text = inr gcs /\ map fst gcs = json_ids /\
+  forall n t aa sc, nth_error all_tables n = Some t -> nth_error all_lines n = Some (aa, sc) ->
+    exists g, nth_error gcs n = Some (t_key t, g) /\ gc_json_eqb g t aa sc = true.
+Proof. exact convert_whole. Qed.
+Print Assumptions C17_convert_whole.
 
 (* unbounded, for ANY ncbieaa / sncbieaa lines of at least 64 characters (any base table) and any alphabet whose
    expansions are base codons: generate_gc raises nothing; starts / stops / ttinv / astarts / astops are the functions
